@@ -17,7 +17,7 @@ from . import formats as FM, kernels as K
 
 GRAN = (0x01, 0x05, 0x02, 0x03, 0x04, 0x06, 0x07, 0x10, 0x11)
 BYTEWIDTH = {0x01: 1, 0x05: 1, 0x10: 1, 0x11: 1, 0x02: 2, 0x03: 3, 0x04: 4, 0x06: 4, 0x07: 8}
-RATES = [1, 8000, 11025, 44100, 65535, 65536, 2 ** 30 - 1, 2 ** 30, 2 ** 31 - 1]
+RATES = [1, 2, 3, 8000, 11025, 44100, 65535, 65536, 2 ** 30 - 1, 2 ** 30, 2 ** 31 - 1]
 CHANNELS = [1, 2, 3, 6]
 KF_RATE = "KF-AIFF-RATE-2P30"
 TINY = 0x0DA24260          # binary32 pattern of the smallest float >= 1e-30
@@ -200,6 +200,13 @@ def c04_predicate(job, final, reopen_line):
     form, chunks = chunk_walk(final)
     if form is None or form != (len(final) - 8) % 2 ** 32:
         probs.append("FORM size field %s, file length - 8 = %d" % (form, len(final) - 8))
+    cm = [c for c in chunks if c[0] == b"COMM"]
+    if len(cm) != 1:
+        probs.append("no single COMM chunk")
+    else:
+        nsf = struct.unpack(">I", final[cm[0][1] + 6:cm[0][1] + 10])[0]
+        if nsf != fr:
+            probs.append("COMM numSampleFrames field %d, the file holds %d frames" % (nsf, fr))
     ss = [c for c in chunks if c[0] == b"SSND"]
     if len(ss) != 1:
         probs.append("no single SSND chunk")
@@ -403,7 +410,7 @@ def run(ctx, found=False):
     ctx.notes["aiff"] = {"formats": [f.name for f in fmts], "writer": dict(wstats), "reader": dict(rstats),
                          "writer_disagreements": len(corr), "predicate_failures": len(pred), "reader_disagreements": len(bad),
                          "known_rate_class_sessions": len(known), "rates_tabulated": len(rates), "rates_exact_in_model": exact,
-                         "rule": "every accepted sample-granular AIFF (major, subtype, endian) x channels {1,2,3,6} x rates {1, 8000, 11025, 44100, 65535, 65536, "
+                         "rule": "every accepted sample-granular AIFF (major, subtype, endian) x channels {1,2,3,6} x rates {1, 2, 3, 8000, 11025, 44100, 65535, 65536, "
                                  "2^30-1, 2^30, 2^31-1, seeded} x N {0,1,2,3,5,8,4097} (quick: rotating rates per (format, channels, N) plus every rate once per format; "
                                  "thorough: the full product); three store images per session compared byte for byte outside the audio region; "
                                  "library files and their mutants parsed by both sides"}
@@ -413,7 +420,7 @@ def run(ctx, found=False):
     reported = False
     for (j, name, script, probs, reopen) in pred[:3]:
         reported = True
-        last = reopen if not any("size field" in p or "SSND" in p or "FORM" in p for p in probs) else None
+        last = reopen if not any("size field" in p or "SSND" in p or "FORM" in p or "COMM" in p for p in probs) else None
         text = "# C04 violated on the implementation's own transcript (AIFF container campaign)\n# format %s, %d channel(s), %d Hz, %d frames\n# %s\n" % (
             j.f.name, j.ch, j.sr, j.n, "; ".join(probs))
         sc = script if last else j.script(reopen=False)
